@@ -45,6 +45,76 @@ def hostile_rows():
     return rows
 
 
+COLD_CONCURRENT = r"""
+import json, sys, threading
+sys.path.insert(0, sys.argv[1])
+sys.setswitchinterval(1e-6)
+from ocpp.messages import Call, CallResult, _validate_payload
+from ocpp.exceptions import OCPPError
+rows = json.loads(sys.stdin.read())
+out = [None] * len(rows)
+barrier = threading.Barrier(8)
+
+
+def work(k):
+    barrier.wait()
+    for i in range(k, len(rows), 8):
+        ver, mt, action, payload = rows[i]
+        msg = Call("i", action, payload) if mt == "Call" else CallResult("i", payload, action)
+        try:
+            _validate_payload(msg, ver)
+            out[i] = ["accept", None]
+        except OCPPError as e:
+            out[i] = ["reject", e.code]
+        except Exception as e:
+            out[i] = ["crash", type(e).__name__]
+ths = [threading.Thread(target=work, args=(k,)) for k in range(8)]
+for t in ths:
+    t.start()
+for t in ths:
+    t.join()
+print(json.dumps(out))
+"""
+
+
+def cold_concurrent(rep, rows, ref, n_runs):
+    import os
+    import subprocess
+    idx = [i for i, r in enumerate(rows) if r[3] in ("valid-all", "valid-required", "viol:type", "viol:required") and ref[i][0] != "crash"]
+    # one version per run: all eight threads meet the version's lazily built state at once
+    per = {"1.6": [i for i in idx if rows[i][0] == "1.6"][:24], "2.0.1": [i for i in idx if rows[i][0] == "2.0.1"][:24]}
+    procs = []
+    for k in range(n_runs):
+        ver = "1.6" if k % 2 else "2.0.1"
+        sel = per[ver]
+        if not sel:
+            continue
+        arg = json.dumps([[rows[i][0], rows[i][1], rows[i][2], rows[i][4]] for i in sel], default=repr)
+        p = subprocess.Popen([C.PY, "-c", COLD_CONCURRENT, C.REPO], stdin=subprocess.PIPE, stdout=subprocess.PIPE, stderr=subprocess.PIPE,
+                             text=True, env=dict(os.environ, PYTHONHASHSEED="0", PYTHONPATH=C.REPO))
+        p.stdin.write(arg)
+        p.stdin.close()
+        procs.append((p, sel, ver))
+    for (p, sel, ver) in procs:
+        try:
+            out_txt = p.stdout.read()
+            p.wait(timeout=180)
+            got = json.loads(out_txt.strip().splitlines()[-1])
+        except Exception:  # noqa: BLE001
+            got = [["crash", "no output: " + (p.stderr.read() or "")[-200:]]] * len(sel)
+        for i, v in zip(sel, got):
+            rep.count("cold:%d" % i, nontrivial=False)
+            v = (v[0], v[1])
+            if v != ref[i]:
+                r = rows[i]
+                rep.violation("C13:cold-concurrent:%s:%s:%s" % (r[0], r[1], r[2]),
+                              "%s %s %s: %r when it is among the first validations of a fresh interpreter, made in eight threads at once; "
+                              "%r alone" % (r[0], r[1], r[2], v, ref[i]),
+                              {"kind": "cold-concurrent", "request": [r[0], r[1], r[2], r[4]], "verdict": v, "verdict_alone": ref[i],
+                               "batch": [[rows[j][0], rows[j][1], rows[j][2], rows[j][4]] for j in sel]})
+    rep.coverage["cold_concurrent_runs"] = len(procs)
+
+
 def body_factory(tier, seed):
     def body(rep, support_ok):
         import ocpp.messages as M
@@ -174,6 +244,9 @@ def body_factory(tier, seed):
                                       {"kind": "async", "request": [r[0], r[1], r[2], r[4]], "concurrent": v, "alone": ref[i]})
         finally:
             M.ASYNC_VALIDATION = old
+        # 4c. cold start under concurrency: fresh interpreters in which the very first validations of a version happen
+        #     at the same moment in eight threads (whatever is initialised lazily on first use is initialised under a race)
+        cold_concurrent(rep, rows, ref, 16 if tier == "quick" else 48)
         # 5. the model: pure verdict of the same requests (the theorem says history cannot matter)
         if support_ok:
             M._validators.clear()
